@@ -348,6 +348,21 @@ Theorem c01_reserved_seq_refuted :
 Proof. exact w_reserve_invalid. Qed.
 Print Assumptions c01_reserved_seq_refuted.
 
+(* ---- the session / task emitters under a refused log write (open finding W3-order, the C01 face of C03's W3) ----
+   emit_event / TaskEmitter::emit number, record and publish a frame and only then write it to the log, dropping
+   the result.  While every log write succeeds the stream is 0,1,2,.. ... *)
+Theorem c01_session_emit_writes_ok : forall (sid : N) (ts : list etype),
+  forallb is_sess ts = true -> Valid (emit_unchecked sid 0 (map (fun t => (t, true)) ts)).
+Proof. exact emit_unchecked_valid. Qed.
+Print Assumptions c01_session_emit_writes_ok.
+
+(* ... REFUTED as soon as one write in the middle of a run is refused and the run goes on: the log reads 0,2
+   (replayed on the real engine: harness group session_refused_write, KNOWN_FINDINGS W3-order) *)
+Theorem c01_session_emit_refused_write_refuted :
+  validate (emit_unchecked 7 0 w_refused_run) = false /\ map seq (emit_unchecked 7 0 w_refused_run) = [0; 2].
+Proof. exact w_refused_invalid. Qed.
+Print Assumptions c01_session_emit_refused_write_refuted.
+
 (* non-vacuity: four clients on one session next to a thread creation, another run and a task pump meet
    the hypotheses, and one schedule of theirs writes 7 frames on 4 streams *)
 Example c01_session_hypotheses_satisfiable :
